@@ -16,6 +16,7 @@ import H263V.Lemmas.SorensonPicture
 import H263V.Lemmas.BasePicture
 import H263V.Lemmas.PlusPicture
 import H263V.Lemmas.IdctSpec
+import H263V.Lemmas.ReconSpec
 namespace H263V.Thm.C02
 open H263V H263V.Gather H263V.Spec.Vlc
 
@@ -109,6 +110,20 @@ theorem idct_channel_pointwise (levels : Array Rle.Dct) (output : Array Nat) (bp
     (r : Array Nat) (h : Idct.idctChannel levels output bpl spl = .ok r) :
     r.size = output.size ∧ ∀ k, r.getD k 0 = idctAt levels bpl spl output k :=
   idctChannel_spec levels output bpl spl hb hs r h
+
+open H263V.State H263V.Lemmas.ReconSpec in
+/-- **Every sample of an intra picture.**  The reconstruction step of `decode_next_picture` for a picture without INTER macroblocks
+(every I picture; the reference is irrelevant): plane sizes are kept, and sample `k` of each plane is
+`clamp 0..255 (initial value + residual of the block covering it at its offset inside the block)` — `idctVal` — where the blocks are
+the level arrays filled by the macroblock loop (C11: dequantised, zig-zag placed) and the initial value of a fresh picture is 0. -/
+theorem intra_picture_samples (types : Array MbType) (ref : Option DecPic) (mvs : Array Mv.Mv4) (m w : Nat) (pic out : DecPic)
+    (lumaLv cbLv crLv : Array Rle.Dct) (hw : 1 ≤ w) (hc : 1 ≤ pic.chromaSpr) (hm : m ≠ 0)
+    (hall : ∀ i, i < types.size → (types.getD i .inter).isInter = false)
+    (h : reconstruct types ref mvs m w pic lumaLv cbLv crLv = .ok out) :
+    (out.luma.size = pic.luma.size ∧ ∀ k, out.luma.getD k 0 = idctVal lumaLv (m * 2) w pic.luma.size k (pic.luma.getD k 0)) ∧
+    (out.cb.size = pic.cb.size ∧ ∀ k, out.cb.getD k 0 = idctVal cbLv m pic.chromaSpr pic.cb.size k (pic.cb.getD k 0)) ∧
+    (out.cr.size = pic.cr.size ∧ ∀ k, out.cr.getD k 0 = idctVal crLv m pic.chromaSpr pic.cr.size k (pic.cr.getD k 0)) :=
+  reconstruct_intra types ref mvs m w pic out lumaLv cbLv crLv hw hc hm hall h
 
 open H263V.Lemmas.RoundTrip H263V.Spec.Syntax in
 /-- Block layer on its own: `decode_block` returns exactly the INTRADC code and the (run, level) events written, in order,
